@@ -668,7 +668,9 @@ ASSUMPTIONS = [
     'an empty component is judged only through composite_if.is_valid (the composite decides whether components are due); direct calls of a component '
     'node use non-empty values only',
     'qualifier-selected formats: DTP03 / element 1251 after an element 1250, through segment_if.is_valid with every date/time qualifier the map allows and '
-    'the other elements valid; the selected format is the one named by the qualifier value',
+    'the other elements valid; the selected format is the one named by the qualifier value; the values tried there (both tiers) include date ranges '
+    'whose halves have 6, 8 or 12 digits or are empty in all combinations, and D8 / D6 / DT / TM values just below, at and just above every length '
+    'the format admits',
     'not covered: maps that do not load (841.4010.XXXC), nodes whose data element is not defined in dataele.xml (C16), composites with trailing empty '
     'surplus components, too many sub-elements at segment level (segment_if), regex semantics (Python re is trusted)',
     'exhaustive = complete over all element / composite nodes of the loadable shipped maps x the stated value catalogue (thorough tier); the catalogue '
